@@ -165,4 +165,23 @@ example :
     (st5.lnode.lookup 1).map (·.fars) = some [1] ∧ (st5.lnode.lookup 2).map (·.fars) = some [] ∧
     o5.head? = some (Out.dp { seid := 2, op := .remove, kind := .far, id := 1 } { ok := true }) := by decide
 
+/-- **known finding `takeoverNode`, on the model (by evaluation)**: nodes p1 and p2 with one session each (1 and 2); p1's
+    session is taken over by node id p2 (Modification Request with a Node ID).  Then node id p2 re-associates.  By the
+    requests, the sessions under p2 are now 1 (taken over) and 2 (established under it).  The mechanism renamed p1's whole
+    node object and overwrote p2's entry: the re-association removes session 1 only — session 2 survives, and no later
+    re-association of either id reaches it. -/
+theorem takeover_orphans :
+    let st0 : State := {}
+    let (st1, _) := step st0 (.request "p1" 1 (.assoc (some (.v4 "p1")))) {}
+    let (st2, _) := step st1 (.request "p2" 1 (.assoc (some (.v4 "p2")))) {}
+    let (st3, _) := step st2 (.request "p1" 2 (.est { nodeID := some (.v4 "p1"), cpSeid := some 7#64 })) {}
+    let (st4, _) := step st3 (.request "p2" 2 (.est { nodeID := some (.v4 "p2"), cpSeid := some 8#64 })) {}
+    let (st5, _) := step st4 (.request "p1" 3 (.mod { seid := 1, nodeID := some (.v4 "p2") })) {}
+    let (st6, _) := step st5 (.request "p2" 3 (.assoc (some (.v4 "p2")))) {}
+    let (st7, _) := step st6 (.request "p1" 4 (.assoc (some (.v4 "p1")))) {}
+    (st4.lnode.lookup 1).isSome = true ∧ (st4.lnode.lookup 2).isSome = true ∧
+    st4.rnodes.length = 2 ∧ st5.rnodes.length = 1 ∧
+    (st6.lnode.lookup 1).isSome = false ∧ (st6.lnode.lookup 2).isSome = true ∧
+    (st7.lnode.lookup 2).isSome = true := by decide
+
 end UpfVerif.C05
